@@ -1,4 +1,5 @@
 import PebblesVerif.Props.C01
+import PebblesVerif.Props.C01Flat
 open PebblesVerif
 #print axioms C01_point_roundtrip_list
 #print axioms C01_point_roundtrip_list_noid
@@ -10,3 +11,5 @@ open PebblesVerif
 #print axioms C01_sanitize_expands_spreads
 #print axioms C01_helpers_only_prepended
 #print axioms C01_one_hop
+#print axioms C01_flat_one_hop
+#print axioms C01_flat_one_hop_instance
